@@ -221,6 +221,48 @@
 //	            header) may hide a variable of an enclosing block provided the hidden variable is not used
 //	            after the block of the new one ends (the `let` of the new one stays visible until the end of
 //	            the rendered statement list).
+//
+// Slices of errors, maps with struct keys, sort.Slice, locals of type Type (`Schema.Check`,
+// `Schema.buildRels`, `Schema.Rels`, `Type.Copy`; the code of these rules is in wp_s.go).
+// Reading conventions (trusted):
+//
+//	[]error     is `List (Res Unit)` by the rules above (`[]T` is `List T`, `error` is `Res Unit`): one
+//	            element per appended error, `fmt.Errorf(…)` / `errors.New(…)` are `Res.err`, the texts
+//	            are not modelled. The translated function returns the errors in the order they are
+//	            appended; their number is the length of the list.
+//	keyed maps  `map[K]V` with K one of the model's structures Rel / Attr (strings and bools only: Go's
+//	            == on them is field-wise equality, Lean's derived DecidableEq) is `List (K × V)`: the
+//	            entries, with distinct keys, in an order that stands for the iteration order the runtime
+//	            picks (as GoMap does for string keys). `struct{}` is `Unit`, `struct{}{}` is `()`: a
+//	            `map[K]struct{}` is a set of keys. `map[K]V{}` is `[]`; `m[k] = v` is `Gen.mapSet m k v`
+//	            (printed with the functions when used; the same definition as GoMap.set: the value of
+//	            an existing key is replaced in place, a new key is added at the end) and is accepted
+//	            only for a local variable m whose single assignment in the function is its declaration
+//	            `m := map[K]V{…}` and whose address is not taken (so m is never nil), outside any loop
+//	            that ranges over m. `len(m)` is the length, `for k := range m` / `for k, v := range m`
+//	            run over the entries (k is `elem_.1`, v `elem_.2`). A read `m[k]` and a literal with
+//	            entries are outside the subset.
+//	sort.Slice  `sort.Slice(xs, func(i, j int) bool { return E })` on a local slice variable xs, where E
+//	            mentions i, j and xs only as `xs[i]` and `xs[j]`, gives xs the value
+//	            `List.mergeSort xs (fun a' b' => !E')`, E' being E with `xs[i]` read as b' and `xs[j]` as
+//	            a' - "a may stay before b unless b is less than a", the comparison the model's merge sort
+//	            takes. sort.Slice is not stable and Go does not specify its algorithm: the reading is
+//	            exact where `less` is a strict total order on the elements present (then the sorted
+//	            arrangement is unique); that is a proof obligation of the equivalence theorem
+//	            (Props/GenC15b discharges it for relLess on the distinct keys of a map), not something
+//	            the translator checks. Rejected: another comparison shape, xs not a local slice, xs
+//	            being ranged over.
+//	Type locals `v := Type{Name: …, Attrs: …, Rels: …}` (a literal with fields) declares a local structure
+//	            of the model's `Typ`, threaded as the locals of generated structures are (header:
+//	            structs: v is used only as the root of a selection or in a return; a field given as a
+//	            map literal is known to be non-nil). The field NewFunc is not part of `Typ`: the
+//	            statement `a.NewFunc = b.NewFunc` between two variables of type Type is rendered as
+//	            nothing (it has no effect on the modelled fields, and no translated function reads
+//	            NewFunc: any other mention of it leaves the subset), so a translated function speaks
+//	            about the Name / Attrs / Rels of its Type values only.
+//	scoping     (correction) when the branches of an `if` or `switch` are joined, a variable declared
+//	            inside the statement (`var found bool` in a branch) is not part of the joined state: it
+//	            is not visible after the statement.
 package main
 
 import (
@@ -294,6 +336,9 @@ func bytesLit(s string) string {
 // ---------- types ----------
 
 func leanType(t types.Type, n ast.Node) string {
+	if s, ok := wpsType(t, n); ok {
+		return s
+	}
 	switch u := t.(type) {
 	case *types.Pointer:
 		if optionPointer(u) {
@@ -1109,6 +1154,9 @@ func nilInit(s *ast.IfStmt) (string, bool) {
 // effect translates a statement that writes through the receiver into the `let` lines that
 // re-bind it ("" for the nil-map initialisation); ok is false for any other statement.
 func (x *tr) effect(st ast.Stmt, ind string) (out string, ok bool) {
+	if out, ok := x.wpsEffect(st, ind); ok {
+		return out, true
+	}
 	if as, isAs := st.(*ast.AssignStmt); isAs {
 		if out, ok := x.multiAssign(as, ind); ok {
 			return out, true
@@ -1266,6 +1314,9 @@ func (x *tr) constant(e ast.Expr) (string, bool) {
 func (x *tr) expr(e ast.Expr) string {
 	if c, ok := x.constant(e); ok {
 		return c
+	}
+	if s, ok := x.wpsExpr(e); ok {
+		return s
 	}
 	switch v := e.(type) {
 	case *ast.ParenExpr:
@@ -1808,6 +1859,7 @@ func (x *tr) assigned(stmts []ast.Stmt, out map[string]bool) {
 		out[x.recvName] = true
 	}
 	x.ownedWrites(stmts, out)
+	x.wpsAssigned(stmts, out)
 	for _, s := range stmts {
 		ast.Inspect(s, func(n ast.Node) bool {
 			if c, ok := n.(*ast.CallExpr); ok && len(c.Args) > 0 {
@@ -2196,6 +2248,7 @@ func (x *tr) block(stmts []ast.Stmt, ind string) string {
 			vars := map[string]bool{}
 			x.assigned(s.Body.List, vars)
 			x.assigned(els, vars)
+			x.wpsDropInner(vars, s)
 			vs := make([]string, 0, len(vars))
 			for v := range vars {
 				vs = append(vs, v)
@@ -2232,6 +2285,7 @@ func (x *tr) block(stmts []ast.Stmt, ind string) string {
 				x.assigned(b, vars)
 			}
 			x.assigned(def, vars)
+			x.wpsDropInner(vars, s)
 			vs := make([]string, 0, len(vars))
 			for v := range vars {
 				vs = append(vs, v)
@@ -2896,6 +2950,7 @@ func main() {
 		}
 		fmt.Println()
 	}
+	fmt.Print(wpsPrelude())
 	fmt.Print(buf.String())
 	fmt.Println("end Jsonapi.Gen")
 }
